@@ -50,6 +50,10 @@ def generate(seed, run, tier):
             ops.append(['ray', r.randint(1, hi), r.randint(1, hi), r.randrange(64), r.randrange(64), r.choice([0.0, 0.5, 1.0, 1.5]) * math.pi + r.choice([0.0, 0.0, r.uniform(-0.3, 0.3)]), r.choice([0.01, 0.01, 0.05, 0.3])])
         else:
             ops.append(['adv', r.choice(['clear_caches', 'warm'])] + [r.randrange(64)])
+    if r.random() < 0.05:
+        # size knob: views whose fan has a power-of-two number of rays ((h+1)*(w+1) cell corners)
+        bh, bw = r.choice([(15, 15), (7, 31), (31, 7), (3, 63), (63, 3), (7, 15), (15, 7), (1, 127)])
+        ops.append(['vis', bh, bw, r.randrange(bh), r.randrange(bw), r.choice(['clear', 'clear', 'walls']), r.randrange(2**31)])
     for _ in range(2):
         ops.append(['repeat', r.randrange(64), 'same'])
     return {'property': PROP, 'seed': seed, 'run': run, 'tier': tier, 'debug': True, 'ops': ops, 'keep_caches': r.random() < 0.3}
@@ -150,7 +154,7 @@ def execute(record, ctx):
                     objs[rr.randrange(h)][rr.randrange(w)] = Wall()
             grid = Grid(objs)
             v = sut(vreg['raytracing'], grid, Position(oy, ox))
-            ctx.probe('visibility_' + mode)
+            ctx.probe('visibility_' + mode + ('_boundary_size' if h * w > 100 else ''))
             ctx.log('vis', op)
             if isinstance(v, Raised):
                 ctx.violate('rays', 'visibility_raised', 'raytracing', v.type, i, repr(v))
